@@ -1151,6 +1151,76 @@ Definition run_head_spec (x : xval) : xval :=
   | _ => bad_input
   end.
 
+(** ---------------------------------------------------------------------------------------------
+    HTTP/2: the accept loop of [handle_connection] and streams the client has RESET
+    --------------------------------------------------------------------------------------------- *)
+(** Every request [HttpConnection::accept] yields is either answered by the loop itself (the host's limiter says
+    [LimitAction::Send]: 429) or handed to a task of its own ([spawn(future)]), whose failures are its own.  h2 also yields
+    streams the client has already reset (RST_STREAM read in the same poll as the HEADERS, or while the loop was busy):
+    [send_response] / [send_data] on such a stream fail with a user error, kvarn's [Error::ClientRefusedResponse].
+    [cont] = the repaired loop: on HTTP/2 that failure concerns this stream only — [continue].  [cont = false] is the code
+    before: [ret_log_app_error!] returned from [handle_connection]; the h2 connection is dropped with it, and with the
+    connection every answer that has not been written yet — those of the tasks whose handlers are still running — and
+    every stream not yet accepted.  (What the loop itself answered before is flushed by the poll of the next [accept].) *)
+Record h2req := mkH2Q { hq_sid : N; hq_reset : bool; hq_limited : bool; hq_status : N }.
+(** (stream, status, answered by a task?) for every answer produced, in stream order; is the connection still served? *)
+Fixpoint h2_accept_loop (cont : bool) (qs : list h2req) : list (N * N * bool) * bool :=
+  match qs with
+  | [] => ([], true)
+  | q :: rest =>
+      if hq_limited q && hq_reset q && negb cont then ([], false) else
+      let '(out, alive) := h2_accept_loop cont rest in
+      (if hq_reset q then out
+       else (hq_sid q, (if hq_limited q then 429 else hq_status q), negb (hq_limited q)) :: out, alive)
+  end.
+(** what reaches the client: the loop's own answers, and the tasks' answers if the connection outlives the loop *)
+Definition h2_answered (cont : bool) (qs : list h2req) : list (N * N) * bool :=
+  let '(out, alive) := h2_accept_loop cont qs in
+  (map (fun o => (fst (fst o), snd (fst o))) (filter (fun o => alive || negb (snd o)) out), alive).
+(** the specification: every stream the client did not reset receives its own answer, and the connection goes on *)
+Definition h2_reset_spec (qs : list h2req) : list (N * N) * bool :=
+  (map (fun q => (hq_sid q, if hq_limited q then 429 else hq_status q)) (filter (fun q => negb (hq_reset q)) qs), true).
+
+(** "proto.rst": (L cfg (L request ...) (L reset_index ...) (L (L limited status) ...)) -> (L (L (L sid status) ...) alive):
+    request i is stream 2i+1; the limiter's verdict and the status of the page are inputs *)
+Fixpoint d_h2reqs (i : N) (resets : list N) (l : list xval) : option (list h2req) :=
+  match l with
+  | [] => Some []
+  | XL [lim; XN st] :: rest =>
+      match d_bool lim, d_h2reqs (i + 1) resets rest with
+      | Some lim', Some qs => Some (mkH2Q (2 * i + 1) (existsb (N.eqb i) resets) lim' st :: qs)
+      | _, _ => None
+      end
+  | _ => None
+  end.
+Definition x_h2_answered (r : list (N * N) * bool) : xval :=
+  XL [XL (map (fun a => XL [XN (fst a); XN (snd a)]) (fst r)); x_bool (snd r)].
+Definition run_rst_gen (cont : bool) (x : xval) : xval :=
+  match x with
+  | XL [_; _; rs; XL vs] =>
+      match d_list d_N rs with
+      | Some resets => match d_h2reqs 0 resets vs with
+                       | Some qs => x_h2_answered (h2_answered cont qs)
+                       | None => bad_input
+                       end
+      | None => bad_input
+      end
+  | _ => bad_input
+  end.
+Definition run_rst : xval -> xval := run_rst_gen true.
+Definition run_rst_spec (x : xval) : xval :=
+  match x with
+  | XL [_; _; rs; XL vs] =>
+      match d_list d_N rs with
+      | Some resets => match d_h2reqs 0 resets vs with
+                       | Some qs => x_h2_answered (h2_reset_spec qs)
+                       | None => bad_input
+                       end
+      | None => bad_input
+      end
+  | _ => bad_input
+  end.
+
 Definition protocols_table : list (bytes * (xval -> xval)) :=
   [ (B "proto.pair", run_pair);
     (B "proto.server", run_pair);      (* the same exchanges through complete servers (RunConfig::execute) *)
@@ -1168,4 +1238,6 @@ Definition protocols_table : list (bytes * (xval -> xval)) :=
     (B "proto.body_spec", run_body_spec);
     (B "proto.sbody", run_sbody);
     (B "proto.head", run_head);
-    (B "proto.head_spec", run_head_spec) ].
+    (B "proto.head_spec", run_head_spec);
+    (B "proto.rst", run_rst);
+    (B "proto.rst_spec", run_rst_spec) ].
